@@ -642,6 +642,17 @@ func (b *Builder) Extract(x *Term, hi, lo int) *Term {
 		}
 		return b.Concat(b.Extract(x.Args[0], hi-lw, 0), b.Extract(x.Args[1], lw-1, lo))
 	case OAnd, OOr, OXor:
+		// sign bit of (q | -q): the "is non-zero" idiom
+		if x.Op == OOr && hi == w-1 && lo == w-1 {
+			a0, a1 := x.Args[0], x.Args[1]
+			if (a1.Op == ONeg && a1.Args[0] == a0) || (a0.Op == ONeg && a0.Args[0] == a1) {
+				q := a0
+				if a0.Op == ONeg && a0.Args[0] == a1 {
+					q = a1
+				}
+				return b.Ite(b.Eq(q, b.ConstU(w, 0)), b.ConstU(1, 0), b.ConstU(1, 1))
+			}
+		}
 		// push extract through bitwise ops (keeps byte-level structure small)
 		a0, a1 := b.Extract(x.Args[0], hi, lo), b.Extract(x.Args[1], hi, lo)
 		switch x.Op {
@@ -816,6 +827,13 @@ func (b *Builder) Eq(x, y *Term) *Term {
 			// impossible value
 			if new(big.Int).AndNot(y.K, b.Maybe(x)).Sign() != 0 {
 				return b.Bool(false)
+			}
+			// (a | b) == 0  <=>  a == 0 and b == 0
+			if x.Op == OOr && y.K.Sign() == 0 {
+				return b.BAnd(b.Eq(x.Args[0], y), b.Eq(x.Args[1], y))
+			}
+			if x.Op == OConcat && y.K.Sign() == 0 {
+				return b.BAnd(b.Eq(x.Args[0], b.ConstU(int(x.Args[0].S), 0)), b.Eq(x.Args[1], b.ConstU(int(x.Args[1].S), 0)))
 			}
 			if x.Op == OZExt {
 				return b.Eq(x.Args[0], b.Const(int(x.Args[0].S), y.K))
